@@ -8,6 +8,7 @@ let why = function
   | None -> "untranslated"
   | Some COob -> "oob"
   | Some (CUB _) -> "ub"
+  | Some CFuel -> "fuel"
   | Some (COk _) -> "ok"
 
 let cell s = if s = "-" then None else Some (cz_of_string s)
